@@ -13,6 +13,7 @@ use crate::tokenizer::Doctype;
 
 // These should all be lowercase, for ASCII-case-insensitive matching.
 static QUIRKY_PUBLIC_PREFIXES: &[&str] = &[
+    "+//silmaril//dtd html pro v0r11 19970101//",
     "-//advasoft ltd//dtd html 3.0 aswedit + extensions//",
     "-//as//dtd html 3.0 aswedit + extensions//",
     "-//ietf//dtd html 2.0 level 1//",
